@@ -212,8 +212,9 @@ def scope_shapes(max_len=2):
 IO_ATOMS = ['say "a"', 'say X', 'Listen to X', 'Listen']
 
 
-def io_shapes(max_len=2):
-    """X holds a string; <= max_len I/O statements, each bare / in a taken branch / in a 2-pass loop / in a function called
+def io_shapes(max_len=2, wrappers=None, min_len=1):
+    """(wrappers: restrict the statement wrappers to these indices of {0 bare, 1 branch, 2 loop, 3 function statement, 4 function in
+    an expression}; min_len: shortest sequence generated)  X holds a string; <= max_len I/O statements, each bare / in a taken branch / in a 2-pass loop / in a function called
     as a statement / in a function called inside an expression; finally X is printed"""
     stmts = []
     for k, a in enumerate(IO_ATOMS):
@@ -223,8 +224,9 @@ def io_shapes(max_len=2):
         stmts.append(('F', a, 'F taking 1'))
         stmts.append(('G', a, 'say G taking 1'))
     out = []
-    for n in range(1, max_len + 1):
-        for seq in itertools.product(range(len(stmts)), repeat=n):
+    sel = [i for i in range(len(stmts)) if wrappers is None or i % 5 in wrappers]
+    for n in range(min_len, max_len + 1):
+        for seq in itertools.product(sel, repeat=n):
             defs, body = [], []
             oc, ic = 1, 0                                  # calls on the output / input stream of a fault-free run with enough input
             for j, si in enumerate(seq):
